@@ -379,6 +379,8 @@ def _rest(db, rep):
     # ------------------------------------------------------------------ r4
     r4 = rep.rule('r4', 'RESULTS: the declared argument list reported for a function definition is exactly the declared (name, domain type) pairs in order - the argument visitors and the scope functions interpreted on argument lists whose domains open and close scopes of their own', 1)
     declared_args_rule(db, r4)
+    from rules import C07 as _C07
+    _C07.reset_complete_rule(db, r4)         # the reported argument list is the one of the current definition: the record is reset completely before it is filled again
 
     # ------------------------------------------------------------------ r5
     r5 = rep.rule('r5', 'KINDS: CstType predicate tables partition the kinds consistently and CheckConstituenta enforces base/empty, callable/arguments, logical/typed', 4)
